@@ -20,6 +20,7 @@ CONSTANTS
   CfModes = {"plain"}
   DevRebuildMergesAcrossState = TRUE
   DevEncCheckIgnoresStrict = FALSE
+  DevCasefoldOpaqueHashFails = FALSE
   DevDupFoldsPlainDir = FALSE
   DevInodeUninitWipes = FALSE
 INVARIANT TypeOK
